@@ -169,6 +169,8 @@ class C20(SeqProp):
         "the spec accepts any non-Ok outcome there and demands that nothing is registered",
         "HashMap iteration order inside opts! is not controlled (keys of one map are distinct, so the merged map does not depend on it)",
         "default-registry forms are run against the process-wide default registry; every returned handle is unregistered from it afterwards",
+        "the one-time creation of the default registry (lazy_static) is not modelled; it is exercised by 40 (thorough: 400) fresh harness processes in which "
+        "12 threads make the first use at once through register_int_counter! - a probabilistic stress that supports the check and proves nothing",
     ]
 
     def gen(self, r, tier):
@@ -371,6 +373,34 @@ class C20(SeqProp):
                     p = dump(None, "no-failing-input-found", "proof obligation no longer checks: %s; bad axioms %s; forbidden %s" % (
                         proof.get("failed_at"), proof["bad_axioms"], proof["forbidden"][:3]))
                 print("VIOLATION property=%s replay=%s no-failing-input-found" % (pid, p)); rc = 1
+        # the FIRST use of the process-wide default registry, made by 12 threads at once, in fresh processes: every macro that names no
+        # registry must land in the one registry prometheus::gather() reads (expected output fixed: the model has ONE default registry)
+        fu_runs, fu_bad = 0, None
+        if not replay or (replay and json.load(open(replay)).get("first_use")):
+            nproc = 40 if tier == "quick" else 400
+            expect = "D ok=12 missing=0 readmitted=0"
+            def one(_):
+                try:
+                    return subprocess.run([binp], input="D 12\n", stdout=subprocess.PIPE, stderr=subprocess.DEVNULL, text=True, timeout=60).stdout.strip()
+                except Exception as e:
+                    return "D error %s" % type(e).__name__
+            from concurrent.futures import ThreadPoolExecutor
+            with ThreadPoolExecutor(max_workers=4) as ex:
+                outs_fu = list(ex.map(one, range(nproc)))
+            fu_runs = len(outs_fu)
+            bad = [o for o in outs_fu if o != expect]
+            if bad:
+                fu_bad = bad[0]
+                if rc == 0:
+                    payload = dict(property=pid, tier=tier, seed=seed, kind="failing-input", first_use=True, scenario_wire="D 12", impl_obs=bad[0], expected=expect,
+                                   processes=fu_runs, processes_failing=len(bad),
+                                   broken="first use of the default registry by 12 threads at once (each runs register_int_counter! without naming a registry): "
+                                          "a registration that returned Ok is missing from prometheus::gather() or can be registered twice - the macro did not "
+                                          "register in THE default registry",
+                                   explanation="replay with: python3 tools/check.py %s --replay <this file> (fresh processes; the race is probabilistic)" % pid)
+                    p = write_replay(pid, seed, 0, payload)
+                    print("[%s] first-use race: %d of %d processes: %s" % (pid, len(bad), fu_runs, bad[0]))
+                    print("VIOLATION property=%s replay=%s" % (pid, p)); rc = 1
         if ev["errors"] and rc == 0:
             print("[%s] ERROR: Coq could not evaluate some case files" % pid)
             rc = 2
@@ -382,7 +412,7 @@ class C20(SeqProp):
                    theorems=proof["theorems"], evaluations=nruns, value_sets=len(vss), distinct_nontrivial=len(nontriv), rule=self.rule,
                    samples=[(ev["lines"][i][:500] + " => " + (ev["outs"][i] or "")[:700]) for i in range(min(2, len(vss)))],
                    traces_validated_against_impl=nruns - len(corr_f), correspondence_mismatches=len(corr_f), spec_failures=len(spec_f),
-                   known_finding_cases=0, macros_in_source=len(macros), arms_in_source=narms, arm_runs_per_macro=dict(arms_hit),
+                   known_finding_cases=0, default_registry_first_use_processes=fu_runs, default_registry_first_use_failures=(0 if fu_bad is None else 1), macros_in_source=len(macros), arms_in_source=narms, arm_runs_per_macro=dict(arms_hit),
                    input_distribution=dict(macro_results=dict(results),
                                            label_names=dict(collections.Counter(len(v["labels"]) for v in vss)),
                                            opts_maps=dict(collections.Counter(len(v["maps"]) for v in vss)),
